@@ -575,6 +575,6 @@ fn main() {
     check.assume("a process crash leaves exactly the RocksDB writes issued so far (WAL in the page cache survives a process crash; power loss is not modelled)");
     check.assume("state_machine::apply_command (judged by C35) defines the state of a command sequence");
     let all = check.is_thorough() || check.is_replay();
-    check.explore("crash_restart", case, 80, 3000, move |c: &Case| run_case(c, all));
+    check.explore("crash_restart", case, 80, 1000, move |c: &Case| run_case(c, all));
     check.finish();
 }
